@@ -16,7 +16,7 @@ from vt.clock import CLOCK
 TIE_TOL = 1e-5
 
 
-class OrderedSelector(selectors.SelectSelector):
+class OrderedSelector(getattr(selectors, 'EpollSelector', selectors.SelectSelector)):
     """select() never blocks (the explorer owns time) and returns ready fds in
     ascending fd order unless the explorer reorders them."""
 
@@ -26,15 +26,12 @@ class OrderedSelector(selectors.SelectSelector):
         self._cached = None
 
     def peek(self):
-        if self._cached is None:
-            ready = super().select(0)
-            ready.sort(key=lambda kv: kv[0].fd)
-            self._cached = ready
-        return self._cached
+        ready = super().select(0)
+        ready.sort(key=lambda kv: kv[0].fd)
+        return ready
 
     def select(self, timeout=None):
         ready = self.peek()
-        self._cached = None
         if self.order_hook is not None and len(ready) > 1:
             ready = self.order_hook(ready)
         return ready
